@@ -21,7 +21,10 @@ MANIFEST = {
     },
     "level_note": "Time is virtual (one tick = one step); delays are whole ticks except the loop replay which adds a "
                   "sub-tick remainder; the pipeline's 4096-slot capacity (Add drops when full) is not reached; the "
-                  "session layer's use of the wheel (session.go) is covered only through Add/Remove semantics.",
+                  "session layer's use of the wheel (Add at connect and on every command, Remove at session end, Session.Close as "
+                  "callback) is covered by a seeded driver with up to three client connections against a real Server on loopback "
+                  "(its wheel driven through the tick gate, unexported wheel state read by reflection while the wheel is parked), "
+                  "not exhaustively.",
     "technique": "TLA+ spec + TLC exhaustive check; TLC-generated behaviours replayed on the real TimeWheel; "
                  "recorded traces validated by TLC",
 }
@@ -118,6 +121,59 @@ def ctx_inconclusive(msg):
     return vlib.Inconclusive(msg)
 
 
+SESSION_HARNESS = ["proxy/server/proto_common_test.go", "proxy/server/c37_session_test.go"]
+SESSION_RUN = "^TestVerifSessionIdleTimer$"
+SESSION_TRACE_CFG = """SPECIFICATION TraceSpec
+CONSTANTS
+  Keys = {"k1", "k2", "k3", "k4", "k5", "k6", "k7", "k8", "k9", "k10", "k11", "k12", "k13", "k14", "k15", "k16", "k17", "k18", "k19", "k20", "k21", "k22", "k23", "k24"}
+  N = 3600
+  MaxDelay = 1000
+  MaxOps = 1000000
+  MaxTicks = 1000000
+INVARIANTS TypeOK Registered PositionEncodesDue
+POSTCONDITION TraceAccepted
+CHECK_DEADLOCK FALSE
+"""
+
+
+def session_phase(ctx, rng, thorough):
+    """The session layer's use of the idle timer (proxy/server: Add at connect and on every command, Remove when the
+    session ends, Session.Close as callback): a real Server on loopback runs its own wheel (N = 3600, tick = 5 s,
+    sessionTimeout = d ticks) behind the verif tick gate; a seeded driver lets up to three client connections connect,
+    send commands, quit and lets ticks happen; the recorded add/del/tick events are validated by TLC with TimeWheel_trace.
+    The harness asserts the session-level effects itself: a fired session's connection is closed, others still answer."""
+    import vlib
+    scen = [dict(timeout_ticks=2, steps=80), dict(timeout_ticks=1, steps=60)]
+    if thorough:
+        scen = [dict(timeout_ticks=d, steps=220) for d in (1, 2, 3, 5, 2, 4)]
+    lines = []
+    tot = {"connects": 0, "commands": 0, "quits": 0, "ticks": 0, "fires": 0}
+    for i, sc in enumerate(scen):
+        case = dict(sc, id=1000 + i, seed=rng.randrange(1, 2 ** 31))
+        tp = ctx.path("c37-session-trace-%d.ndjson" % i)
+        res, summ, out = ctx.harness("proxy/server", SESSION_HARNESS, SESSION_RUN, [case], env={"VERIF_TRACE_OUT": tp})
+        for r in res:
+            for d in r.get("devs", []):
+                if d["sig"].startswith("C37 harness"):
+                    raise vlib.Inconclusive("session-level harness problem: %s: %s" % (d["sig"], d["what"]))
+                ctx.deviation(d["sig"], d["what"], {"session_scenario": case})
+        for k in tot:
+            tot[k] += summ.get(k, 0)
+        lines += [e for e in ctx.read_ndjson(tp) if not e.get("summary")]
+    if not lines:
+        raise vlib.Inconclusive("the session-level harness recorded nothing")
+    ok, rejected = ctx.validate_traces("TimeWheel_trace", "tw_session_trace.cfg", lines, cfg_text=SESSION_TRACE_CFG)
+    for rj in rejected:
+        ctx.deviation("C37 session trace rejected at %s" % rj["event"]["ev"],
+                      "TLC rejects the trace recorded from the server's own wheel at event %d: %s" % (rj["index"], json.dumps(rj["event"])),
+                      {"n": 3600, "trace": rj["events"]})
+    ctx.cov["traces_validated_against_impl"] += ok
+    ctx.cov["session_level"] = dict(tot, scenarios=len(scen), events_validated_by_tlc=len(lines), traces_accepted=ok)
+    ctx.log("session level:", tot, "events", len(lines), "traces accepted", ok, "of", len(scen))
+    if tot["fires"] == 0:
+        ctx.notes.append("session-level phase: no session was fired by a tick in this run")
+
+
 def run(ctx):
     import vlib
     thorough = ctx.thorough
@@ -189,6 +245,9 @@ def run(ctx):
     ctx.cov["distinct_nontrivial"] = len(nontriv)
     ctx.cov["rule"] = ("behaviours = event sequences over add(key,delay)/del(key)/tick enumerated by TLC (all of a bounded length, "
                        "plus seeded simulation); non-trivial = at least one key fires and at least one registration is refreshed or removed")
+
+    # 2b. V at the session level: a real Server on loopback, its own wheel driven through the tick gate
+    session_phase(ctx, rng, thorough)
 
     # 3. binding self-test: a corrupted expectation and a corrupted trace must both be rejected
     if ctx.violations:
